@@ -535,14 +535,15 @@ _m("C09", "Proved for every I-JSON value with scalar member names: the compact t
           "serializer jcs (members sorted by UTF-16 code units, strings minimally escaped, no white space, numbers rendered by the "
           "ECMAScript digit search); jcs is defined exactly when every number is renderable; member names come out strictly "
           "increasing in UTF-16 order. Number half (Flocq): nearest_double is the IEEE-754 round-to-nearest-even binary64 of the exact "
-          "decimal; the rendering reads back to the same double, its digit string is a round-tripping candidate and no examined "
-          "shorter candidate round-trips; all 26 rows of RFC 8785 Appendix B are checked inside Coq. The implementation's own float "
+          "decimal; the rendering exists exactly when that double is finite, reads back to the same double, has the fewest digits of "
+          "any decimal that does and is the closest such; all 26 rows of RFC 8785 Appendix B are checked inside Coq. The implementation's own float "
           "conversions (std str::parse::<f64>, ryu-js) are dependencies: their agreement with the reference conversion is what the "
           "correspondence run validates, on seeded decimals around every rounding and notation boundary.",
    "Axioms: exactly the four standard-library axioms Flocq's theorems use (ClassicalDedekindReals.sig_forall_dec, sig_not_dec, "
-   "FunctionalExtensionality.functional_extensionality_dep, Classical_Prop.classic); the structural theorems are axiom-free. Not proved: "
-   "that 17 digits always suffice (the reference returns None otherwise, which the run would report) and that the two examined "
-   "candidates per digit count are the only relevant ones (full ECMAScript minimality).",
+   "FunctionalExtensionality.functional_extensionality_dep, Classical_Prop.classic); the structural theorems are axiom-free. The digit "
+   "search is proved total on valid finite doubles (17 digits suffice), shortest over ALL decimals and closest among the shortest "
+   "(ECMA-262 Number::toString step 5); the one residue is a vacuous-looking tie alternative (k = 1, 9 vs 10) that is not excluded. "
+   "The four layout cases of the rendering are a direct transcription, covered by the Appendix B rows and the round trip.",
    "Coq proof (insertion sort by a total order = sorted-members spec; Flocq-backed correct rounding and round trip) + correspondence of canonical bytes with jcs")
 _m("C10", "Proved: canonicalization is idempotent (for the reference conversion unconditionally; for any conversion that is idempotent on "
           "spellings); values equal up to member order at any depth have the same canonical form and text; the canonical form is the "
